@@ -261,6 +261,76 @@ def enumerate_index(body, bb):
     return False
 
 
+def f_recursion(ctx, prog, krates=('minicbor', 'minicbor_serde'), label=''):
+    """no recursion among the workspace's own functions: a cycle in the resolved call graph (calls and fn items taken as values,
+    by definition path) makes the stack depth a function of the input.  Recursion *through a type parameter* (`T::decode` of a
+    nested user type) is not in this graph: its depth is the nesting depth of the Rust type, not of the input."""
+    # nodes are *instances* (definition + type arguments as far as the caller fixes them): `encode_with::<Ipv4Addr>` called from
+    # `<SocketAddrV4 as Encode>::encode` is another node than the `encode_with::<SocketAddrV4>` that led there - recursion that
+    # follows the structure of a type, not of the input.  A closure belongs to the function that defines it.
+    g = {}
+    by_path = {}
+    parents = {}
+    for k, inst in prog.insts.items():
+        if inst['krate'] not in krates:
+            continue
+        parents.setdefault(inst['path'].split('::{closure')[0], []).append(k)
+    for k, inst in prog.insts.items():
+        if inst['krate'] not in krates:
+            continue
+        by_path[k] = inst
+        outs = g.setdefault(k, set())
+        if '::{closure' not in inst['path']:
+            for k2 in parents.get(inst['path'], ()):
+                if k2 != k and '::{closure' in prog.insts[k2]['path'] and prog.insts[k2]['path'].startswith(inst['path'] + '::{closure'):
+                    outs.add(k2)
+        for bi, t in mir.iter_calls(inst['body']):
+            f = t.get('f') or {}
+            rk = f.get('rkey')
+            tgt = prog.insts.get(rk) if rk else None
+            if tgt is not None and tgt['krate'] in krates:
+                outs.add(rk)
+        for f, sp in mir.fn_consts_in_body(inst['body']):
+            rk = f.get('rkey')
+            tgt = prog.insts.get(rk) if rk else None
+            if tgt is not None and tgt['krate'] in krates:
+                outs.add(rk)
+    import sys
+    sys.setrecursionlimit(max(sys.getrecursionlimit(), 20000))
+    idx, low, stack, on, cycles, c = {}, {}, [], set(), [], [0]
+
+    def sc(v):
+        idx[v] = low[v] = c[0]
+        c[0] += 1
+        stack.append(v)
+        on.add(v)
+        for w in g.get(v, ()):
+            if w not in idx:
+                sc(w)
+                low[v] = min(low[v], low[w])
+            elif w in on:
+                low[v] = min(low[v], idx[w])
+        if low[v] == idx[v]:
+            comp = []
+            while True:
+                w = stack.pop()
+                on.discard(w)
+                comp.append(w)
+                if w == v:
+                    break
+            if len(comp) > 1 or v in g.get(v, ()):
+                cycles.append(sorted(comp))
+    for v in sorted(g):
+        if v not in idx:
+            sc(v)
+    for comp in cycles:
+        inst = by_path[comp[0]]
+        ctx.violation('F-RECURSION', prog.insts[comp[0]]['path'], 'recursion among the crate\'s own functions (%s): the stack depth follows the input; nesting must be handled iteratively (as skip() does) or bounded' % ' -> '.join(prog.insts[k_]['path'] for k_ in comp[:4]), mir.loc(inst['sp']))
+    if not cycles:
+        ctx.ok('F-RECURSION', '%d functions%s, no cycle' % (len(g), label))
+    return len(g)
+
+
 def f_unsafe(ctx, prog):
     allowed = {
         'minicbor::decode::ArrayVec::<T, N>::into_array': 'reads [MaybeUninit<T>; N] as [T; N] under len == N, then forgets self',
@@ -780,6 +850,9 @@ def run(ctx):
     ctx.rules_run.append('F-PANIC.skip: skip() and helpers only it calls are interpreted from every state shape of its bookkeeping (C06 T-SKIP.sim machinery): no step can panic')
     ctx.rules_run.append('T-PRIM: input primitives: Ok <=> bounds check succeeded, position advanced by exactly the bytes returned; error = EndOfInput with position unchanged')
     t_prim(ctx, prog)
+    ctx.rules_run.append('F-RECURSION: the resolved call graph of minicbor and minicbor-serde (calls and fn items, by definition) has no cycle: stack depth never follows the input (generic recursion through `T::decode` follows the Rust type)')
+    nf = f_recursion(ctx, prog)
+    ctx.floor('F-RECURSION', 'functions in the call graph', nf, 800)
     ctx.rules_run.append('F-UNSAFE: unsafe blocks = reviewed set; ArrayVec typestate (write before len++, read under len == N then forget, drop on error exits)')
     f_unsafe(ctx, prog)
     ctx.rules_run.append('F-ALLOC: no allocation sized by a runtime value in decode paths')
@@ -796,7 +869,7 @@ def run(ctx):
     # positive controls
     try:
         from . import controls
-        controls.run(ctx, ('F-ALLOC', 'F-PANIC', 'F-UNSAFE', 'F-LOOP'))
+        controls.run(ctx, ('F-ALLOC', 'F-PANIC', 'F-UNSAFE', 'F-LOOP', 'F-RECURSION'))
     except ImportError:
         ctx.notes.append('fixtures not built')
     return ('Census over %d decode-reachable functions (%d entry points): panic sites, unsafe blocks, allocation sinks, input-field accesses, loops.' % (len(reach), len(roots)))
